@@ -53,19 +53,26 @@ impl Parameters {
         }
 
         Ok(Parameters {
-            a1: params["a1"].as_f64().ok_or_else(|| ParameterError::MissingField("a1".into()))?,
-            a2: params["a2"].as_f64().ok_or_else(|| ParameterError::MissingField("a2".into()))?,
-            b: params["b"].as_f64().ok_or_else(|| ParameterError::MissingField("b".into()))?,
-            c1: params["c1"].as_f64().ok_or_else(|| ParameterError::MissingField("c1".into()))?,
-            c2: params["c2"].as_f64().ok_or_else(|| ParameterError::MissingField("c2".into()))?,
-            c3: params["c3"].as_f64().ok_or_else(|| ParameterError::MissingField("c3".into()))?,
-            c4: params["c4"].as_f64().ok_or_else(|| ParameterError::MissingField("c4".into()))?,
+            a1: Self::read_number(&params["a1"], "a1")?,
+            a2: Self::read_number(&params["a2"], "a2")?,
+            b: Self::read_number(&params["b"], "b")?,
+            c1: Self::read_number(&params["c1"], "c1")?,
+            c2: Self::read_number(&params["c2"], "c2")?,
+            c3: Self::read_number(&params["c3"], "c3")?,
+            c4: Self::read_number(&params["c4"], "c4")?,
             dof: dof,
             offsets: Self::read_offsets(&doc["opw_kinematics_joint_offsets"])?,
             sign_corrections: sign_corrections,
         })
     }
 
+
+    /// Lengths may be written as reals (0.15) or integers (0).
+    fn read_number(value: &Yaml, name: &str) -> Result<f64, ParameterError> {
+        value.as_f64()
+            .or_else(|| value.as_i64().map(|v| v as f64))
+            .ok_or_else(|| ParameterError::MissingField(name.into()))
+    }
 
     fn read_sign_corrections(doc: &Yaml) -> Result<[i8; 6], ParameterError> {
         // Store the temporary vector in a variable for longer lifetime
